@@ -25,10 +25,10 @@ ASSUMPTIONS = [
     "the reference table series is computed by date from the user's observations: held constant from each observation on (first one also before it), or linear in time",
 ]
 FLOORS = {
-    "quick": {"table_days": 8000, "d_below_table": 1500, "d_gwin": 100, "d_cr": 1000,
+    "quick": {"shifted_window_reuse_runs": 1, "table_days": 8000, "d_below_table": 1500, "d_gwin": 100, "d_cr": 1000,
               "cr_compartment_checks": 2000, "far_pairs": 30, "no_table_days": 3000,
               "zgw_series_checks": 8000, "d_thfc_adjusted": 2000},
-    "thorough": {"table_days": 80000, "d_below_table": 15000, "d_gwin": 1000, "d_cr": 10000,
+    "thorough": {"shifted_window_reuse_runs": 1, "table_days": 80000, "d_below_table": 15000, "d_gwin": 1000, "d_cr": 10000,
                  "cr_compartment_checks": 20000, "far_pairs": 300, "no_table_days": 30000,
                  "zgw_series_checks": 80000, "d_thfc_adjusted": 20000},
 }
